@@ -520,6 +520,14 @@ func (s *Service) startInternalListener() {
 			continue
 		}
 
+		// handle() announces and persists the whole chain of states before it sends anything: when a send fails (e.g.
+		// the ack after `done`), the thread is already done. The terminal state is not left again.
+		if _, terminal := msg.state.(*done); terminal {
+			logger.Errorf("thread is done, not abandoning: %s", msg.err)
+
+			continue
+		}
+
 		logger.Errorf("abandoning: %s", msg.err)
 		msg.state = &abandoning{V: getVersion(msg.Msg.Type()), Code: codeInternalError}
 
